@@ -379,6 +379,12 @@ func TestVxC05Unmarshal(t *testing.T) {
 			ch := &vxCh{c: c.Choices}
 			def := vxDefaultGoType(c.Type)
 			targets := []reflect.Type{def, reflect.PtrTo(def), vxPick(c.Type, []cqlspec.Value{c.Value}, ch, vxDst, false)}
+			if c.Type.Kind == cqlspec.UDT {
+				// an application struct that has unexported fields named like fields of the type (reflect.StructOf cannot
+				// build such a type, hence a fixed one: the generator names UDT fields af, bf, cf, ...)
+				targets = append(targets, reflect.TypeOf(vxUnexportedDest{}))
+				k.Class("udt into a struct with unexported fields of the same names")
+			}
 			for _, tt := range targets {
 				var pan interface{}
 				alloc, over := vxMeasureOver(vxAllocBound(len(data)), func() {
@@ -394,6 +400,13 @@ func TestVxC05Unmarshal(t *testing.T) {
 			return nil
 		},
 	})
+}
+
+type vxUnexportedDest struct {
+	af int
+	bf string
+	Cf interface{} `cql:"cf"`
+	df []byte
 }
 
 // vxValueFields lists the length / count fields of the specification's encoding of v.
